@@ -89,13 +89,46 @@ def writers_of(src):
     return found
 
 
+def call_sites(src):
+    """method / function name -> set of functions (quals) containing a call `x.<name>(...)` or `<name>(...)`"""
+    sites = {}
+    for qual, (fn, mod, f) in src.funcs.items():
+        for n in ast.walk(fn):
+            if isinstance(n, ast.Call):
+                nm = n.func.attr if isinstance(n.func, ast.Attribute) else (n.func.id if isinstance(n.func, ast.Name) else None)
+                if nm:
+                    sites.setdefault(nm, set()).add(qual)
+    return sites
+
+
+def private_helpers_of(allowed, candidates, sites):
+    """writers that are private helpers of allowed writers: the name starts with `_`, there is at least one call site, and every call site
+    (matched by bare name anywhere in pams: conservative) lies inside an allowed writer or inside another accepted helper. Such a helper has no
+    contract of its own, so each allowed writer is verified with the helper's body inlined (or the engine gives up: exit 3), i.e. its writes are
+    covered by the caller's contract."""
+    ok = set()
+    changed = True
+    while changed:
+        changed = False
+        for q in candidates:
+            if q in ok:
+                continue
+            name = q.rsplit(".", 1)[-1]
+            callers = sites.get(name, set())
+            if name.startswith("_") and not name.startswith("__") and callers and all(c in allowed or c in ok for c in callers):
+                ok.add(q); changed = True
+    return ok
+
+
 @task("census:writers", props=["C01", "C02", "C03", "C04", "C05", "C06", "C08", "C09", "C13", "C16"], functions=[], replay=None)
 def t_census():
     src = get_src()
     found = writers_of(src)
     obl = []
+    sites = call_sites(src)
     for fld in sorted(WRITERS):
-        extra = sorted(set(found.get(fld, {})) - WRITERS[fld])
+        extra = set(found.get(fld, {})) - WRITERS[fld]
+        extra = sorted(extra - private_helpers_of(WRITERS[fld], extra, sites))
         detail = "; ".join(f"{q}: {found[fld][q][0]}" for q in extra[:3])
         obl.append({"name": f"census:writers/field `{fld}` is written only by the functions under contract" + ("" if not extra else f" -- also written by {detail}"),
                     "pc": [], "goal": z3.BoolVal(not extra), "kind": "census", "hints": {"field": fld, "unexpected_writers": extra}})
